@@ -31,7 +31,8 @@ CHECKS = {
              "(C11_regex_subject/object), a regex matching nothing is an error (C11_no_match_*), a batch of subjects with explicit objects passes iff every "
              "single-subject rule passes, for all 12 shapes and related modules (C11_batch_subjects), likewise over objects for plain should/should_not "
              "(C11_batch_objects); the partial-name form has the glob meaning (C11_partial_name via C08_glob). re.match is a Section variable (oracle). "
-             "Tie to /repo: compact rule vs expanded rule(s) both evaluated on the real code (metamorphic), all evaluations compared with the model.",
+             "Tie to /repo: compact rule vs expanded rule(s) both evaluated on the real code (metamorphic), all evaluations compared with the model; "
+             "have_name_containing (subject or object, dotted both-star names, lookalike modules) vs naming the modules the partial names match under their documented character-by-character meaning (no regex and no library converter in the expectation); one regex rule object applied to four architectures.",
         note="Python re on user regexes is an oracle: its truth table over the graph's names is computed with the real re and handed to the model. "
              "Open known finding K3 (known_findings.json): for the two 'anything' aliases a regex that matches a module together with its own sub modules does not equal its expansion "
              "(C11_regex_anything_refuted is the kernel-checked witness; the expansion theorems cover the 12 explicit shapes). Trusted: Coq kernel, extraction, driver, harness.",
@@ -39,19 +40,19 @@ CHECKS = {
         design="5/C11"),
     "C12": dict(
         text="Theorems (Coq, EVERY graph and EVERY rule incl. related subjects/objects, regexes, batches): duality, negation and negation_except (single subject/object), "
-             "both should_only decompositions, the 'anything' alias (definitional rewrite, verdict and report), four monotonicity laws under adding an import. "
-             "Tie to /repo: each law evaluated directly on the real code (2-3 real assert_applies calls per instance), every evaluation also compared with the model.",
+             "both should_only decompositions, the 'anything' alias (= 'except' the subjects without listed ancestors, verdict and report, given that every subject the rewrite removes is a module - otherwise an error, C13_alias_unknown_name), four monotonicity laws under adding an import. "
+             "Tie to /repo: each law evaluated directly on the real code (2-3 real assert_applies calls per instance; named, sub-module and regex sides; graphs built so that 'should' passes for a regex side with nested matches), every evaluation also compared with the model; source-level monotonicity (one import statement appended to one file).",
         note="Trusted: Coq kernel, extraction, driver, harness. Searches: comprehension model proved equal to the worklist loops (see C01).",
         technique="Coq proof (laws of the model) + laws evaluated on the implementation + correspondence",
         design="5/C12"),
     "C13": dict(
         text="Theorems (Coq, EVERY call history, no length bound): the Rule builder refines an independent specification automaton that sees only call kinds; "
              "a verdict (pass or AssertionError) is produced only for histories that supply subject, verb, import type and object/'anything', without should_not+other verb "
-             "and without 'anything'+should/should_only (C13_rule_history); unknown module names and non-matching regexes are errors for all 12 shapes (C13_unknown_name, C13_no_match); "
+             "and without 'anything'+should/should_only (C13_rule_history); unknown module names and non-matching regexes are errors for all 12 shapes (C13_unknown_name, C13_no_match) and for the two 'anything' aliases, also when the alias rewrite drops the absent name because its parent is listed too (C13_alias_unknown_name); "
              "LayerRule histories yield a verdict only with an architecture, one subject layer and a complete lowered rule; undefined layers are rejected at the call; DiagramRule histories yield a verdict only if a file was given and the parser accepted it (C13_diagram_history), a text without end tag is rejected (C13_diagram_no_end_tag); "
              "the entry point's option guard is exactly the three documented exclusions (C13_options). Tie to /repo: exhaustive call sequences (<=4 quick, <=5 thorough, 14 symbols) + random longer + every single mutation of 11 complete chains on the real Rule / LayerRule; "
              "oracle on the real code: history rejected by the Python twin of the automaton => neither PASS nor AssertionError; model outcomes compared as well; "
-             "unknown names on random (level-limited) architectures; all 48 entry-point option combinations; DiagramRule without file / tags.",
+             "unknown names (misspelt / too deep, alone or inside batches next to their own would-be parent) on random (level-limited) architectures, implementation and model; all 48 entry-point option combinations; DiagramRule without file / tags.",
         note="Entry-point option validation, module_path outside root_path and DiagramRule incompleteness are tied to /repo by finite enumeration on the implementation against the documented rejections (their Coq statements are C13_options / C13_diagram_*; the model is not in the loop for these two). "
              "Trusted: Coq kernel, extraction, driver, harness (incl. the Python twin automaton, cross-checked against the Coq one on every history).",
         technique="Coq refinement proof (builder state machine vs specification automaton) + exhaustive history correspondence",
@@ -100,7 +101,7 @@ CHECKS = {
              "related modules included (C15_order_independent, lists as sets), and so is the whole outcome class pass / AssertionError / error (C15_class_order_independent); the graph queries return the same Ok/error and the same set of imports (C15_query_order_independent); the configuration "
              "a rule object is left with after an evaluation evaluates like the original on every architecture (C15_reapply); the model's evaluable is an immutable value. "
              "Checked by execution on /repo (not provable in a model): 40-evaluation interleavings on one shared evaluable vs each evaluation alone, snapshot before/after, re-applied rule objects, "
-             "all permutations of list arguments and layer orders, permuted exclusion tuples, shuffled Path.iterdir, two scans, 8 hash seeds in fresh interpreters (digest of all verdicts+messages).",
+             "all permutations of list arguments and layer orders, permuted exclusion tuples, shuffled Path.iterdir, two scans, 8 hash seeds in fresh interpreters (digest of all verdicts, messages and complete error texts of a deterministic battery of module rules, layer rules and diagram rules; on a difference the first differing evaluation is located and reported).",
         note="The runtime behaviour the model cannot exhibit: CPython set/dict iteration order, hash randomisation, Path.iterdir order, networkx freeze/mutation. Those are exercised, not proved. "
              "Trusted: Coq kernel, harness.",
         technique="Coq proof of order-independence / re-application on the model + execution under varied orders, histories and hash seeds",
